@@ -339,7 +339,7 @@ func c08Program(c *core.C) {
 			}
 			r.Shuffle(len(nl.Edges), func(a, b int) { nl.Edges[a], nl.Edges[b] = nl.Edges[b], nl.Edges[a] })
 		}
-		pool = append(pool, nl)
+		pool = append(pool, spareList(nl))
 	}
 	pool = append(pool, &sbom.NodeList{}, sbom.NewNodeList())
 	steps := 5 + r.Intn(26)
@@ -373,6 +373,13 @@ func c08Program(c *core.C) {
 				pool = append(pool, res)
 			} else {
 				pool[r.Intn(len(pool))] = res
+			}
+		}
+		// the invariant must keep holding for EVERY list produced so far, not only for the one just returned
+		for pi, pl := range pool {
+			if why := gen.WellFormed(pl); why != "" {
+				c.Violatef("history-illformed-earlier-result", map[string]any{"trace": trace, "share": share}, "after the operations %v list %d of the pool is ill-formed although no operation was applied to it since it was produced: %s", trace, pi, why)
+				return
 			}
 		}
 		if !share {
